@@ -246,7 +246,10 @@ class SettleMonitor(Monitor):
                 self.fail('award', f'awards {[str(x) for x in got]} differ from the exact settlement '
                           f'{[str(x) for x in award]}; layers {self.result["layers"]}', rule='award')
         else:
-            slack = len(pre['boards']) * nt * len(layers)
+            # per layer: the board split leaves < nb odd chips, each board's hand-type split < nt, each push's winner
+            # split < (number of winners); all of them may land on one player
+            nb_ = len(pre['boards'])
+            slack = len(layers) * ((nb_ - 1) + nb_ * (nt - 1) + nb_ * nt * (len(players) - 1))
             for i in range(n):
                 if abs(Fraction(got[i]) - award[i]) > slack:
                     self.fail('award', f'player {i} is awarded {got[i]}, the exact share is {award[i]} (allowed deviation '
